@@ -435,3 +435,8 @@ func init() {
 	addMutant(Mutant{Name: "c28-keymsg-name-unchecked", Property: "C28", File: "protogen/protogen.go",
 		Old: "\tn := genutil.MakeNameUnique(fmt.Sprintf(\"%s%s\", listName, protoListKeyMessageSuffix), msgNames)", New: "\tn := fmt.Sprintf(\"%s%s\", listName, protoListKeyMessageSuffix)\n\t_ = msgNames", Expect: "genListKeyProto:key-message-name"})
 }
+
+func init() {
+	addMutant(Mutant{Name: "c26-enum-goname-unchecked", Property: "C26", File: "gogen/goenums.go",
+		Old: "\t\t\t\tif other, ok := goNames[goName]; ok {\n\t\t\t\t\treturn nil, fmt.Errorf(", New: "\t\t\t\tif other, ok := goNames[goName]; ok && other == \"\" {\n\t\t\t\t\treturn nil, fmt.Errorf(", Expect: "genGoEnumeratedTypes:value-name"})
+}
